@@ -1,4 +1,5 @@
 import Pendulum.Proofs.C05
+import Pendulum.Proofs.DTArithGen
 /-! # C05 — an interval's length is the exact elapsed time between its endpoints
 
 Theorems over the model of `Interval.__new__` and of the paths into it (Model/Interval.lean), for every
@@ -479,5 +480,55 @@ theorem abs_symm_wall_order_counterexample :
       lenOf (new a b true true) = some 3600000000 ∧ lenOf (new b a true true) = some (-3600000000) :=
   ⟨parisZ, ⟨.named parisZ, 1382841000000000, false⟩, ⟨.named parisZ, 1382841000000000, true⟩,
     parisZ_wf, rfl, rfl, by decide +kernel, by decide +kernel⟩
+
+/-! ### `DateTime.__sub__` / `__rsub__` / `diff` themselves, regenerated from `src/pendulum/datetime.py` on every run
+(`tools/gen_dtarith.py` → `Gen/DTArith.lean`): which operand becomes which endpoint of the Interval -/
+open Pendulum.Gen.DTArith Pendulum.DTArithGen
+
+/-- **`self - other` and the reflected `other - self`, from the source**, for a datetime operand `other` that denotes the
+    model value `ov` (`hf`: its seven fields; `ha`: its awareness): the translated operators build
+    `Interval(<other rebuilt>, self, absolute=False)` resp. `Interval(self, <other rebuilt>, absolute=False)`, where an instance
+    of the class is used as it stands (model `sub` / `diff`), a naive native value is rebuilt from its fields with
+    `pendulum.naive` and an aware one through `self.instance(other)` (model `subNative` / `rsubNative`, `instance` read as
+    the model's `instanceOf`). Length by `Interval.new` in every case. -/
+theorem sub_datetime_source_eq_model (I : Inst) (sv ov : V) (o no : Operand) (same : Bool)
+    (hf : toWall ⟨o.year, o.month, o.day, o.hour, o.minute, o.second, o.microsecond⟩ = ov.w)
+    (ha : o.aware = Interval.aware ov) :
+    (o.kind = .pendulumDT →
+      (dt_op_sub I o no).toOption.map (resLen sv ov (.ok ov) same) = some (Interval.sub sv ov same) ∧
+      (dt_op_rsub I o).toOption.map (resLen sv ov (.ok ov) same) = some (Interval.diff sv ov same false)) ∧
+    (o.kind = .datetime →
+      (dt_op_sub I o no).toOption.map (resLen sv ov (Interval.instanceOf ov) same) = some (Interval.subNative sv ov same) ∧
+      (dt_op_rsub I o).toOption.map (resLen sv ov (Interval.instanceOf ov) same) = some (Interval.rsubNative sv ov same)) :=
+  sub_datetime_model I sv ov o no same hf ha
+
+/-- **which operand kinds give an Interval**: `__sub__` → a timedelta (plain, Duration, Interval) is subtracted
+    (`_subtract_timedelta`), a datetime gives `Interval(rebuilt other, self, absolute=False)`, anything else
+    `NotImplemented`; `__rsub__` → a datetime gives `Interval(self, rebuilt other, absolute=False)`, anything else
+    `NotImplemented` -/
+theorem sub_dispatch_source_eq_model (I : Inst) (o no : Operand) :
+    dt_op_sub I o no =
+      (if isDelta o.kind then Except.map Res.value (dt_subtract_timedelta I o no)
+       else if o.kind = .datetime ∨ o.kind = .pendulumDT then .ok (.interval (rebuilt o) .self false)
+       else .ok .notImplemented) ∧
+    dt_op_rsub I o =
+      (if o.kind = .datetime ∨ o.kind = .pendulumDT then .ok (.interval .self (rebuilt o) false)
+       else .ok .notImplemented) := ⟨op_sub_eq I o no, op_rsub_eq I o⟩
+
+/-- **`diff(dt, abs)`, from the source**: `Interval(self, dt, absolute=abs)` with `dt` defaulting to now in the instance's
+    zone; for two given values its length is the model's `diff` -/
+theorem diff_source_eq_model (sv ov : V) (same abs : Bool) (me : Who) (dt : Option Who) :
+    dt_diff me dt abs = .interval me (dt.getD (.now me)) abs ∧
+    resLen sv ov (.ok ov) same (dt_diff .self (some .other) abs) = Interval.diff sv ov same abs := by
+  refine ⟨diff_eq me dt abs, ?_⟩
+  rw [diff_eq]; simp [resLen, whoV, Interval.diff]
+
+/-! non-vacuity: a naive native operand (1970-01-02T00:00) on either side of `-` -/
+example :
+    (dt_op_sub (instOf ⟨.naive, 0, false⟩) ⟨.datetime, false, 1970, 1, 2, 0, 0, 0, 0, 0, 0, 0, 0, 0, 0, 0, 0, 0, 0, 0, 0, 0, 0, 0, 0, 0, 0⟩
+        ⟨.other, false, 0, 0, 0, 0, 0, 0, 0, 0, 0, 0, 0, 0, 0, 0, 0, 0, 0, 0, 0, 0, 0, 0, 0, 0, 0⟩).toOption
+      = some (.interval (.naive 1970 1 2 0 0 0 0) .self false) := by decide +kernel
+example : lenOf (resLen ⟨.naive, 0, false⟩ ⟨.naive, 86400000000, false⟩ (.ok ⟨.naive, 86400000000, false⟩) true
+    (.interval (.naive 1970 1 2 0 0 0 0) .self false)) = some (-86400000000) := by decide +kernel
 
 end Pendulum.Props.C05
